@@ -270,7 +270,7 @@ class CSSImportRule(cssrule.CSSRule):
         doc="(DOM) The parsable textual representation of this rule.",
     )
 
-    def _setHref(self, href):
+    def _setHref(self, href, load=True):
         # set new href
         self._href = href
         # update seq
@@ -279,6 +279,10 @@ class CSSImportRule(cssrule.CSSRule):
             if 'href' == type_:
                 self._seq[i] = (href, type_, item.line, item.col)
                 break
+
+        if not load:
+            # only another spelling of the same target (see resolveImports)
+            return
 
         importedSheet = cssutils.css.CSSStyleSheet(
             media=self.media, ownerRule=self, title=self.name
